@@ -9,6 +9,10 @@ use crate::vm::state::State;
 pub(crate) struct LoopState {
     pub(crate) with_loop_var: bool,
 
+    // set once the iterator handed out an item; the `else` block of a loop
+    // only runs if that never happened.
+    iterated: bool,
+
     // if we're popping the frame, do we want to jump somewhere?  The
     // first item is the target jump instruction, the second argument
     // tells us if we need to end capturing.
@@ -40,6 +44,7 @@ impl LoopState {
         };
         LoopState {
             with_loop_var,
+            iterated: false,
             current_recursion_jump,
             object: Arc::new(Loop {
                 idx: AtomicUsize::new(!0usize),
@@ -55,20 +60,22 @@ impl LoopState {
         }
     }
 
+    /// True if the loop never produced an item.  Leaving the loop early with
+    /// `break` (even in the first iteration) does not count as "did not iterate".
     pub fn did_not_iterate(&self) -> bool {
-        self.object.idx.load(Ordering::Relaxed) == 0
+        !self.iterated
     }
 
     pub fn next(&mut self) -> Option<Value> {
         self.object.idx.fetch_add(1, Ordering::Relaxed);
         #[cfg(feature = "adjacent_loop_items")]
-        {
-            self.object.iter.lock().unwrap().next()
-        }
+        let rv = self.object.iter.lock().unwrap().next();
         #[cfg(not(feature = "adjacent_loop_items"))]
-        {
-            self.iter.next()
+        let rv = self.iter.next();
+        if rv.is_some() {
+            self.iterated = true;
         }
+        rv
     }
 }
 
